@@ -73,6 +73,10 @@ pub trait Part {
     /// false for free-running (uncontrolled OS thread) parts: a failing case need not reproduce,
     /// so it is reported as observed (with its recorded history) instead of being shrunk
     const DETERMINISTIC: bool = true;
+    /// true for parts that feed hostile input to code which may abort the process (allocation
+    /// failure, stack overflow): every case is written to an in-flight file first, and the parent
+    /// reports a shard killed by a signal as a violation with that file as the replay
+    const CRASH_IS_VIOLATION: bool = false;
 }
 
 #[derive(Serialize, Deserialize, Default, Debug)]
@@ -156,6 +160,11 @@ struct Acc {
 
 static CASE_STARTED_MS: std::sync::atomic::AtomicU64 = std::sync::atomic::AtomicU64::new(0);
 static CURRENT_CASE: std::sync::Mutex<String> = std::sync::Mutex::new(String::new());
+static INFLIGHT: std::sync::Mutex<Option<PathBuf>> = std::sync::Mutex::new(None);
+
+pub fn inflight_path(prop: &str, part: &str, shard: u32) -> PathBuf {
+    verif_dir().join("replays").join(format!("inflight-{prop}-{part}-{shard}.json"))
+}
 
 fn now_ms() -> u64 {
     std::time::SystemTime::now().duration_since(std::time::UNIX_EPOCH).map(|d| d.as_millis() as u64).unwrap_or(0)
@@ -183,6 +192,11 @@ fn eval_one<P: Part>(case: &P::Case, acc: &mut Acc, known: &[KnownFinding], coun
         *c = serde_json::to_string(&ReplayFile { property: P::PROP.to_string(), part: P::PART.to_string(), signature: "watchdog".into(), message: String::new(), case: case.clone() }).unwrap_or_default();
     }
     CASE_STARTED_MS.store(now_ms(), std::sync::atomic::Ordering::Relaxed);
+    if P::CRASH_IS_VIOLATION {
+        if let (Ok(c), Some(path)) = (CURRENT_CASE.lock(), INFLIGHT.lock().ok().and_then(|p| p.clone())) {
+            let _ = std::fs::write(path, c.replace("\"signature\":\"watchdog\"", &format!("\"signature\":\"{}/process-crash\"", P::PROP)));
+        }
+    }
     let r = eval_one_inner::<P>(case, acc, known, count);
     CASE_STARTED_MS.store(0, std::sync::atomic::Ordering::Relaxed);
     r
@@ -245,6 +259,10 @@ fn eval_outcome<P: Part>(case: &P::Case, pre: Option<Outcome>, acc: &mut Acc, kn
 
 pub fn run_shard<P: Part>(tier: Tier, seed: u64, shard: u32, of: u32, cases_override: Option<u32>) -> ShardResult {
     let t0 = Instant::now();
+    if P::CRASH_IS_VIOLATION {
+        let _ = std::fs::create_dir_all(verif_dir().join("replays"));
+        *INFLIGHT.lock().unwrap() = Some(inflight_path(P::PROP, P::PART, shard));
+    }
     let known = load_known(P::PROP);
     let total = cases_override.unwrap_or_else(|| P::cases(tier));
     let my_cases = total / of + if shard < total % of { 1 } else { 0 };
@@ -387,6 +405,9 @@ pub fn run_shard<P: Part>(tier: Tier, seed: u64, shard: u32, of: u32, cases_over
         ViolationOut { sig: v.sig, msg: v.msg, replay: path.display().to_string() }
     });
 
+    if P::CRASH_IS_VIOLATION {
+        let _ = std::fs::remove_file(inflight_path(P::PROP, P::PART, shard));
+    }
     ShardResult {
         prop: P::PROP.into(),
         part: P::PART.into(),
@@ -478,6 +499,8 @@ pub fn run_property(parts: &[&PartDesc], tier: Tier, seed: u64, jobs: u32, only_
     let mut merged: Vec<ShardResult> = vec![];
     let mut exit = 0;
     let mut harness_failures = vec![];
+    let mut crash_violations: Vec<ViolationOut> = vec![];
+    let mut crashes_known = 0u64;
     for p in parts {
         if let Some(op) = only_part {
             if op != p.part {
@@ -515,6 +538,22 @@ pub fn run_property(parts: &[&PartDesc], tier: Tier, seed: u64, jobs: u32, only_
             let line = stdout.lines().rev().find(|l| l.starts_with("SHARD-RESULT ")).map(|l| l["SHARD-RESULT ".len()..].to_string());
             match line.and_then(|l| serde_json::from_str::<ShardResult>(&l).ok()) {
                 Some(r) => merged.push(r),
+                None if out.status.code().is_none() && inflight_path(p.prop, p.part, shard).exists() => {
+                    // the shard was killed by a signal while running a case of a crash-attributed part
+                    let inflight = inflight_path(p.prop, p.part, shard);
+                    let body = std::fs::read_to_string(&inflight).unwrap_or_default();
+                    let mut h = std::collections::hash_map::DefaultHasher::new();
+                    body.hash(&mut h);
+                    let dest = verif_dir().join("replays").join(format!("{}-{}-crash-{:016x}.json", p.prop, p.part, h.finish()));
+                    let _ = std::fs::rename(&inflight, &dest);
+                    let sig = format!("{}/process-crash", p.prop);
+                    let known_list = load_known(p.prop);
+                    if known_list.iter().any(|k| k.signature == sig) {
+                        crashes_known += 1;
+                    } else {
+                        crash_violations.push(ViolationOut { sig, msg: format!("the process running part {} was killed by a signal ({:?}) while executing the case in the replay file", p.part, out.status), replay: dest.display().to_string() });
+                    }
+                }
                 None => {
                     let err = String::from_utf8_lossy(&out.stderr);
                     let tail: String = err.lines().rev().take(12).collect::<Vec<_>>().into_iter().rev().collect::<Vec<_>>().join("\n");
@@ -532,7 +571,10 @@ pub fn run_property(parts: &[&PartDesc], tier: Tier, seed: u64, jobs: u32, only_
     let mut known: BTreeMap<String, u64> = BTreeMap::new();
     let mut inconclusive = 0u64;
     let mut inconclusive_reasons: BTreeMap<String, u64> = BTreeMap::new();
-    let mut violations: Vec<ViolationOut> = vec![];
+    let mut violations: Vec<ViolationOut> = crash_violations;
+    if crashes_known > 0 {
+        *known.entry(format!("{prop}/process-crash")).or_default() += crashes_known;
+    }
     let mut per_part: BTreeMap<String, (u64, BTreeSet<u64>, bool, String, f64)> = BTreeMap::new();
     for r in &merged {
         evaluations += r.evaluations;
